@@ -10,30 +10,139 @@ import (
 
 // C17.R3 — observedGeneration wrapper, parsers.
 
+// c17Stale is one observedGeneration test of a function: either the NestedInt64 call itself (Site ==
+// N) or the call of an extracted helper that performs it on its parameters and reports the verdict
+// as its boolean result (Site = the helper call, N/Og/Ok/Err live in Helper).
 type c17Stale struct {
 	N           *ssa.Call
 	Og, Ok, Err ssa.Value
+	Site        *ssa.Call // the instruction of the analysed function at which the test runs
+	Map         ssa.Value // the inspected map, as a value of the analysed function
+	Path        []string  // the constant field path, as seen from the analysed function
+	Helper      *ssa.Function
+	HelperObj   int    // index (in Helper.Params / Site args) of the object whose generation is compared
+	HelperWhy   string // non-empty: the helper's result is not exactly the stale verdict
 }
 
-// c17StaleCalls: unstructured.NestedInt64(x, ..., "observedGeneration") calls of f.
-func c17StaleCalls(f *ssa.Function) []c17Stale {
+// c17StaleCalls: the observedGeneration tests of f: unstructured.NestedInt64(x, ..., "observedGeneration")
+// calls, and calls of extracted helpers whose result is such a test of their parameters.
+func (p *Program) c17StaleCalls(f *ssa.Function) []c17Stale {
 	var out []c17Stale
 	for _, cl := range callsIn(f) {
 		call, ok := cl.Instr.(*ssa.Call)
-		if !ok || !isCallTo(cl.Common, pkgUnstr+".NestedInt64") || len(call.Call.Args) != 2 {
+		if !ok {
 			continue
 		}
-		path, ok := c17VariadicConsts(call.Call.Args[1])
-		if !ok || len(path) == 0 || path[len(path)-1] != "observedGeneration" {
+		if isCallTo(cl.Common, pkgUnstr+".NestedInt64") && len(call.Call.Args) == 2 {
+			path, ok := c17VariadicConsts(call.Call.Args[1])
+			if !ok || len(path) == 0 || path[len(path)-1] != "observedGeneration" {
+				continue
+			}
+			out = append(out, c17Stale{N: call, Og: c16Extract(call, 0), Ok: c16Extract(call, 1), Err: c16Extract(call, 2),
+				Site: call, Map: call.Call.Args[0], Path: path})
 			continue
 		}
-		out = append(out, c17Stale{N: call, Og: c16Extract(call, 0), Ok: c16Extract(call, 1), Err: c16Extract(call, 2)})
+		h := staticCallee(cl.Common)
+		if h == nil || !p.inlinable(h) || h == f {
+			continue
+		}
+		if res := h.Signature.Results(); res.Len() != 1 || res.At(0).Type().String() != "bool" {
+			continue
+		}
+		for _, hc := range callsIn(h) {
+			n, ok := hc.Instr.(*ssa.Call)
+			if !ok || !isCallTo(hc.Common, pkgUnstr+".NestedInt64") || len(n.Call.Args) != 2 {
+				continue
+			}
+			mi, pi := paramIndex(h, n.Call.Args[0]), paramIndex(h, n.Call.Args[1])
+			if mi < 0 || mi >= len(call.Call.Args) {
+				continue
+			}
+			var path []string
+			if pi >= 0 && pi < len(call.Call.Args) {
+				path, ok = c17VariadicConsts(call.Call.Args[pi])
+			} else {
+				path, ok = c17VariadicConsts(n.Call.Args[1])
+			}
+			if !ok || len(path) == 0 || path[len(path)-1] != "observedGeneration" {
+				continue
+			}
+			st := c17Stale{N: n, Og: c16Extract(n, 0), Ok: c16Extract(n, 1), Err: c16Extract(n, 2),
+				Site: call, Map: call.Call.Args[mi], Path: path, Helper: h, HelperObj: -1}
+			st.HelperObj, st.HelperWhy = p.c17HelperIsStaleVerdict(h, st)
+			out = append(out, st)
+		}
 	}
 	return out
 }
 
+type c17BoolCase struct {
+	Val   bool
+	Facts []Fact
+	Ret   *ssa.Return
+}
+
+// c17BoolCases: the ways f can produce its first (boolean) result: constants with the facts of their
+// return edge; a computed result contributes one case per truth value, with the corresponding fact.
+func (p *Program) c17BoolCases(f *ssa.Function) []c17BoolCase {
+	var out []c17BoolCase
+	for _, rc := range p.c17ReturnCases(f) {
+		if len(rc.Results) == 0 {
+			continue
+		}
+		for _, lf := range p.c17Expand(rc.Results[0], rc.Facts, 0) {
+			if v, isConst := c17ConstBoolResult(lf.V); isConst {
+				out = append(out, c17BoolCase{Val: v, Facts: lf.Facts, Ret: rc.Ret})
+				continue
+			}
+			for _, pol := range []bool{true, false} {
+				fs := append(append([]Fact{}, lf.Facts...), p.mkFact(lf.V, pol))
+				out = append(out, c17BoolCase{Val: pol, Facts: fs, Ret: rc.Ret})
+			}
+		}
+	}
+	return out
+}
+
+// c17HelperIsStaleVerdict: helper h returns true exactly under err==nil ∧ found ∧ observedGeneration
+// != <param>.GetGeneration(). Returns the index of that parameter.
+func (p *Program) c17HelperIsStaleVerdict(h *ssa.Function, st c17Stale) (int, string) {
+	direct := st
+	direct.Helper = nil
+	cases := p.c17BoolCases(h)
+	if len(cases) == 0 {
+		return -1, "no boolean result"
+	}
+	why := "the generation is not compared with GetGeneration() of a parameter of " + h.Name()
+	for i, prm := range h.Params {
+		ok, sawTrue := true, false
+		for _, bc := range cases {
+			if bc.Val {
+				sawTrue = true
+				if !p.c17IsStale(bc.Facts, direct, prm) {
+					ok = false
+					why = fmt.Sprintf("%s returns true at %s without err==nil ∧ found ∧ observedGeneration != generation", h.Name(), p.IPos(bc.Ret))
+				}
+			} else if !p.c17NotStale(bc.Facts, direct, prm) {
+				ok = false
+				why = fmt.Sprintf("%s may return false at %s for a declared, different observedGeneration", h.Name(), p.IPos(bc.Ret))
+			}
+		}
+		if ok && sawTrue {
+			return i, ""
+		}
+	}
+	return -1, why
+}
+
 // c17IsStale: the facts establish err==nil ∧ found ∧ observedGeneration != obj.GetGeneration().
 func (p *Program) c17IsStale(fs []Fact, st c17Stale, obj ssa.Value) bool {
+	if st.Helper != nil {
+		if st.HelperObj < 0 || st.HelperObj >= len(st.Site.Call.Args) || !p.sameValue(st.Site.Call.Args[st.HelperObj], obj) {
+			return false
+		}
+		return p.boolFromFacts(fs, st.Site) == yesTri
+	}
 	if st.Og == nil || st.Ok == nil || st.Err == nil {
 		return false
 	}
@@ -54,9 +163,37 @@ func (p *Program) c17IsStale(fs []Fact, st c17Stale, obj ssa.Value) bool {
 	return false
 }
 
+// c17NotStale: the facts contradict err==nil ∧ found ∧ observedGeneration != obj.GetGeneration().
+func (p *Program) c17NotStale(fs []Fact, st c17Stale, obj ssa.Value) bool {
+	if st.Helper != nil {
+		return p.boolFromFacts(fs, st.Site) == noTri
+	}
+	if st.Og == nil || st.Ok == nil || st.Err == nil {
+		return false
+	}
+	if p.nilnessFromFacts(fs, st.Err) == noTri || p.boolFromFacts(fs, st.Ok) == noTri {
+		return true
+	}
+	for _, f := range fs {
+		a, b, equal, ok := c17EqFact(f)
+		if !ok || !equal {
+			continue
+		}
+		for _, pr := range [][2]ssa.Value{{a, b}, {b, a}} {
+			if p.sameValue(pr[0], st.Og) && p.c17CallChain(pr[1], obj, "GetGeneration") {
+				return true
+			}
+		}
+	}
+	return false
+}
+
 // c17StaleOnlyFails: every return reachable from a block in which the stale facts hold is a
 // constant-false return; at least one such block exists.
 func (p *Program) c17StaleOnlyFails(f *ssa.Function, st c17Stale, obj ssa.Value) (tri, string) {
+	if st.Helper != nil && st.HelperWhy != "" {
+		return unknownTri, "the observedGeneration test was extracted into " + st.Helper.Name() + ", whose result is not recognised as the stale verdict: " + st.HelperWhy
+	}
 	rcs := p.c17ReturnCases(f)
 	n := 0
 	for _, b := range f.Blocks {
@@ -209,7 +346,7 @@ func c17r3(c *Ctx) {
 		if k != "wrapper" {
 			continue
 		}
-		stales := c17StaleCalls(f)
+		stales := p.c17StaleCalls(f)
 		if len(stales) == 0 {
 			continue
 		}
@@ -217,14 +354,14 @@ func c17r3(c *Ctx) {
 		c.Visit(f)
 		wrapperTypes[namedTypeString(f.Signature.Recv().Type())] = true
 		obj := c17ObjParam(f)
-		o := c.Ob(f, "stale-generation-fails", stales[0].N, "the wrapper returns false exactly under err==nil ∧ found ∧ status.observedGeneration != obj.GetGeneration() and otherwise returns the wrapped prober's verdict on the same object")
+		o := c.Ob(f, "stale-generation-fails", stales[0].Site, "the wrapper returns false exactly under err==nil ∧ found ∧ status.observedGeneration != obj.GetGeneration() and otherwise returns the wrapped prober's verdict on the same object")
 		var pr []string
 		st := stales[0]
-		if path, _ := c17VariadicConsts(st.N.Call.Args[1]); strings.Join(path, ".") != "status.observedGeneration" {
+		if path := st.Path; strings.Join(path, ".") != "status.observedGeneration" {
 			pr = append(pr, "the inspected field is ."+strings.Join(path, ".")+", not .status.observedGeneration")
 		}
-		if obj == nil || !c17DerivesFrom(st.N.Call.Args[0], obj, 0) {
-			pr = append(pr, "the inspected map is "+p.describe(st.N.Call.Args[0])+", which is not derived from the probed object")
+		if obj == nil || !c17DerivesFrom(st.Map, obj, 0) {
+			pr = append(pr, "the inspected map is "+p.describe(st.Map)+", which is not derived from the probed object")
 		}
 		nDel := 0
 		for _, rc := range p.c17ReturnCases(f) {
@@ -351,37 +488,113 @@ func c17r3(c *Ctx) {
 				pr = append(pr, "the list may be "+p.describe(v)+", which is not an append to itself")
 			}
 		}
-		nProbes := 0
+		// probe constructions: in f itself, or in an extracted helper that hands the probe back as a result
+		isProbeMI := func(v ssa.Value) (string, bool) {
+			mi, ok := v.(*ssa.MakeInterface)
+			if !ok || namedTypeString(mi.Type()) != c17TypeProber {
+				return "", false
+			}
+			tn := namedTypeString(mi.X.Type())
+			if !strings.HasPrefix(tn, pkgProbing+".") || wrapperTypes[tn] || kindOfType[tn] == "list" {
+				return "", false
+			}
+			return tn, true
+		}
+		type construction struct {
+			mi    *ssa.MakeInterface
+			tn    string
+			site  ssa.Instruction // instruction of f at which the probe comes into being
+			via   *ssa.Call       // call of the helper that built it (nil: built in f)
+			idx   int             // result index of the helper holding the probe
+			given []ssa.Value     // the helper's results in the return case that hands out the probe
+		}
+		var cons []construction
 		for _, b := range f.Blocks {
 			for _, in := range b.Instrs {
-				mi, ok := in.(*ssa.MakeInterface)
-				if !ok || namedTypeString(mi.Type()) != c17TypeProber {
-					continue
-				}
-				tn := namedTypeString(mi.X.Type())
-				if !strings.HasPrefix(tn, pkgProbing+".") || wrapperTypes[tn] || kindOfType[tn] == "list" {
-					continue
-				}
-				nProbes++
-				if !inList[mi] {
-					pr = append(pr, fmt.Sprintf("the %s built at %s never reaches the returned list", tn[len(pkgProbing)+1:], p.IPos(mi)))
-					continue
-				}
-				// path-sensitive part: once built, the probe cannot reach the next iteration (or the
-				// end of the loop) without passing an append
-				reaches := false
-				for _, ap := range appends {
-					l := innermostLoop(f, ap.Block())
-					if l == nil {
-						continue
-					}
-					if mi.Block() == ap.Block() || !c17ReachAvoiding(mi.Block(), l.Head, ap.Block()) {
-						reaches = true
+				if v, isV := in.(ssa.Value); isV {
+					if tn, ok := isProbeMI(v); ok {
+						cons = append(cons, construction{mi: v.(*ssa.MakeInterface), tn: tn, site: in})
 					}
 				}
-				if !reaches {
-					pr = append(pr, fmt.Sprintf("the %s built at %s can reach the next iteration without being appended to the list", tn[len(pkgProbing)+1:], p.IPos(mi)))
+				call, isCall := in.(*ssa.Call)
+				if !isCall {
+					continue
 				}
+				h := staticCallee(call.Common())
+				if h == nil || h == f || !p.inlinable(h) {
+					continue
+				}
+				returned := map[*ssa.MakeInterface]bool{}
+				for _, hrc := range p.c17ReturnCases(h) {
+					for i, r := range hrc.Results {
+						for _, pv := range p.possibleValues(r) {
+							if tn, ok := isProbeMI(pv); ok {
+								returned[pv.(*ssa.MakeInterface)] = true
+								cons = append(cons, construction{mi: pv.(*ssa.MakeInterface), tn: tn, site: call, via: call, idx: i, given: hrc.Results})
+							}
+						}
+					}
+				}
+				for _, hb := range h.Blocks {
+					for _, hin := range hb.Instrs {
+						if v, isV := hin.(ssa.Value); isV {
+							if tn, ok := isProbeMI(v); ok && !returned[v.(*ssa.MakeInterface)] {
+								pr = append(pr, fmt.Sprintf("the %s built at %s is not handed back by %s", tn[len(pkgProbing)+1:], p.IPos(hin), h.Name()))
+							}
+						}
+					}
+				}
+			}
+		}
+		nProbes := 0
+		for _, k := range cons {
+			nProbes++
+			tn := k.tn
+			listed := inList[k.mi]
+			if k.via != nil {
+				for v := range inList {
+					if src, i := asCall(v); src == k.via && i == k.idx {
+						listed = true
+					}
+				}
+			}
+			if !listed {
+				pr = append(pr, fmt.Sprintf("the %s built at %s never reaches the returned list", tn[len(pkgProbing)+1:], p.IPos(k.mi)))
+				continue
+			}
+			// path-sensitive part: once built, the probe cannot reach the next iteration (or the
+			// end of the loop) without passing an append. For a probe handed out by a helper, only
+			// the paths consistent with the other results of that return of the helper count.
+			infeasible := func(from, to *ssa.BasicBlock) bool {
+				if k.via == nil {
+					return false
+				}
+				for _, fc := range p.edgeFacts(from, to) {
+					if src, i := asCall(fc.Cond); src == k.via && i >= 0 && i < len(k.given) {
+						if v, isConst := c17ConstBoolResult(k.given[i]); isConst && v != fc.Pol {
+							return true
+						}
+					}
+					if x, trueMeansNonNil, ok := errNilTest(fc.Cond); ok {
+						if src, i := asCall(x); src == k.via && i >= 0 && i < len(k.given) && c17IsNilResult(k.given[i]) && fc.Pol == trueMeansNonNil {
+							return true
+						}
+					}
+				}
+				return false
+			}
+			reaches := false
+			for _, ap := range appends {
+				l := innermostLoop(f, ap.Block())
+				if l == nil {
+					continue
+				}
+				if k.site.Block() == ap.Block() || !c17ReachAvoidingGiven(k.site.Block(), l.Head, ap.Block(), infeasible) {
+					reaches = true
+				}
+			}
+			if !reaches {
+				pr = append(pr, fmt.Sprintf("the %s built at %s can reach the next iteration without being appended to the list", tn[len(pkgProbing)+1:], p.IPos(k.mi)))
 			}
 		}
 		if nProbes == 0 {
